@@ -37,7 +37,7 @@ sh("git checkout -q -- .", wt)
 lines = [l for l in out_c.splitlines() if l.startswith("VIOLATION") or l.startswith("  ") or l.startswith(prop)]
 meta = {
     "property": prop,
-    "seed": "%s-%s" % (prop, k),
+    "seed": "%s-%s%s" % (prop, os.environ.get("SEED_PREFIX", ""), k),
     "needs_to_manifest": open(os.path.join(src, "notes.md")).read()[:3000] if os.path.exists(os.path.join(src, "notes.md")) else "",
     "confirmed": {
         "demo_exit_clean": rc_clean,
@@ -50,7 +50,7 @@ meta = {
 }
 ok = rc_clean == 0 and rc_mut != 0 and meta["confirmed"]["existing_tests_pass_with_change"]
 meta["kept"] = ok
-dst = os.path.join(V, "seeded", "%s-%s" % (prop, k))
+dst = os.path.join(V, "seeded", "%s-%s%s" % (prop, os.environ.get("SEED_PREFIX", ""), k))
 if ok:
     os.makedirs(dst, exist_ok=True)
     shutil.copy(patch, os.path.join(dst, "patch.diff"))
